@@ -5,6 +5,7 @@ use serde_json::Value as J;
 pub fn run_case(case: &J, out: &mut Out, ic_build: bool) {
     match case["run"].as_str().unwrap_or("life") {
         "life" => run_life(case, out, ic_build),
+        "sched" => crate::sched::run_sched(case, out, ic_build),
         "ident" => crate::textual::run_ident(case, out),
         "fuzz" => crate::textual::run_fuzz(case, out),
         "find" => crate::paths::run_find(case, out),
